@@ -17,7 +17,7 @@ import (
 
 var disturberKinds = []string{
 	"handler-error", "unknown-service", "unknown-method", "malformed-method", "empty-method", "leading-slash-only",
-	"cancel-mid", "cancel-early", "caller-deadline", "handler-deadline",
+	"cancel-mid", "cancel-early", "caller-deadline", "handler-deadline", "handler-deadline-never-reads", "caller-deadline-never-reads",
 	"handler-never-reads", "caller-never-reads", "both-never-read", "many-never-read",
 	"after-shutdown",
 	"creds-error", "creds-need-tls", "creds-error-after-cancel",
@@ -40,7 +40,9 @@ func init() {
 							continue // gate / bounded capacity on the outer carrier of a nested tunnel: see sanitizeCfg
 						}
 						for _, fc := range []bool{true, false} {
-							needsFC := kind == "handler-never-reads" || kind == "caller-never-reads" || kind == "both-never-read" || kind == "many-never-read"
+							// (caller-deadline-never-reads: without flow control the cancel frame itself waits
+							// behind the unread requests of its own RPC)
+							needsFC := kind == "handler-never-reads" || kind == "caller-never-reads" || kind == "both-never-read" || kind == "many-never-read" || kind == "caller-deadline-never-reads"
 							if needsFC && !fc {
 								continue // head-of-line blocking is expected without flow control
 							}
@@ -178,6 +180,17 @@ func famDisturb(w *World, c *Case, rng *rand.Rand) {
 		d.Method, d.GrpcTimeout = "Bidi", "2m"
 		d.Client = []Op{{K: "open"}, {K: "send", N: 50000}, {K: "recvall"}}
 		d.Handler = []Op{{K: "recv"}, {K: "ctxwait"}, {K: "send", N: 5}, {K: "ret", Code: codes.DeadlineExceeded, Msg: "late"}}
+	case "handler-deadline-never-reads":
+		// a deadline only the serving side knows expires while the handler is busy and does not read
+		// (and goes on being busy): with or without flow control, whatever was held up behind the
+		// RPC's unread requests flows again once the deadline has passed
+		d.Method, d.GrpcTimeout = "ClientStream", "50m"
+		d.Client = append([]Op{{K: "open"}}, flood...)
+		d.Handler = []Op{{K: "sync", Name: "never"}, {K: "ret"}}
+	case "caller-deadline-never-reads":
+		d.Method, d.Timeout = "ClientStream", 50*time.Millisecond
+		d.Client = append([]Op{{K: "open"}}, flood...)
+		d.Handler = []Op{{K: "sync", Name: "never"}, {K: "ret"}}
 	case "handler-never-reads":
 		d.Method = "ClientStream"
 		d.Client = append([]Op{{K: "open"}}, flood...)
